@@ -4574,7 +4574,8 @@ class TLSConnection(TLSRecordLayer):
                 # Find a suitable ciphersuite based on the certificate
                 ciphers = CipherSuite.filter_for_certificate(cipher_suites, cert)
                 # but if we have matching PSKs, prefer those
-                if settings.pskConfigs and client_psks:
+                # (PSKs are used in TLS 1.3 only)
+                if version > (3, 3) and settings.pskConfigs and client_psks:
                     client_identities = [
                         i.identity for i in client_psks.identities]
                     psks_prfs = [i[2] if len(i) == 3 else None for i in
